@@ -679,6 +679,18 @@ fn parse_comment_attrs(attrs: &[Attribute]) -> Vec<String> {
             }
             _ => None,
         })
+        // A doc string can span several lines (`/** .. */`, `#[doc = "a\nb"]`), but the back
+        // ends print one comment line per entry: split it so that no text leaves the comment.
+        .flat_map(|doc| {
+            if doc.is_empty() {
+                vec![doc]
+            } else {
+                doc.lines()
+                    .flat_map(|line| line.split('\r'))
+                    .map(|line| line.trim().to_string())
+                    .collect()
+            }
+        })
         .collect()
 }
 
